@@ -30,6 +30,9 @@
     expr  ::= (lit ty n) | (var x) | (neg e) | (not e) | (bin op e e)
             | (if e blk [blk]) | (while e blk) | (block blk) | (call f e…)
             | (set x e) | (cset op x e) | (ret [e])
+            | (ctor Ty Variant e…) | (match e arm…)
+    arm   ::= (arm pat [guard] blk)        pat ::= (wild) | (pat Variant x…)
+  A type name that starts with a capital letter is a user-defined enum type.
   Integer literals carry their mathematical value (signed decimal), floats
   their bit pattern, bool 0/1.
 -/
@@ -87,7 +90,10 @@ def parseITy : String → Option ITy
 def parseTy (s : String) : Option Ty :=
   match s with
   | "f32" => some .f32 | "f64" => some .f64 | "bool" => some .bool | "unit" => some .unit
-  | _ => (parseITy s).map .int
+  | _ =>
+    match parseITy s with
+    | some t => some (.int t)
+    | none => if (s.front).isUpper then some (.enum s) else none   -- the built-in `T?` is written `Option`
 
 def showITy : ITy → String
   | .u8 => "u8" | .u16 => "u16" | .u32 => "u32" | .u64 => "u64"
@@ -107,6 +113,7 @@ def valOfBits (ty : Ty) (n : Nat) : Option Val :=
   | .f64 => if n < 2 ^ 64 then some (.f64 (BitVec.ofNat 64 n)) else none
   | .bool => if n = 0 then some (.bool false) else if n = 1 then some (.bool true) else none
   | .unit => some .unit
+  | .enum _ => none
 
 def showVal : Val → String
   | .int t v => s!"{showITy t} {t.toBits v}"
@@ -114,6 +121,7 @@ def showVal : Val → String
   | .f64 b => s!"f64 {b.toNat}"
   | .bool b => s!"bool {if b then 1 else 0}"
   | .unit => "unit 0"
+  | .enum t k _ => s!"enum {t}.{k}"
 
 def showR : R Val → String
   | .ok v => "ok " ++ showVal v
@@ -132,6 +140,12 @@ def litVal (ty : String) (n : String) : Option Val := do
   | .unit => some .unit
   | t => valOfBits t (← n.toNat?)
 
+def toPat : Sexp → Option Pat
+  | .list [.atom "wild"] => some .wild
+  | .list (.atom "pat" :: .atom k :: xs) => do
+    some (.ctor k (← xs.mapM fun | .atom x => some x | _ => none))
+  | _ => none
+
 mutual
 partial def toExpr : Sexp → Option Expr
   | .list [.atom "lit", .atom ty, .atom n] => (litVal ty n).map .lit
@@ -149,6 +163,12 @@ partial def toExpr : Sexp → Option Expr
   | .list [.atom "cset", .atom op, .atom x, e] => do some (.cassign (← parseOp op) x (← toExpr e))
   | .list [.atom "ret"] => some (.ret none)
   | .list [.atom "ret", e] => do some (.ret (some (← toExpr e)))
+  | .list (.atom "ctor" :: .atom ty :: .atom k :: args) => do some (.ctor ty k (← args.mapM toExpr))
+  | .list (.atom "match" :: scrut :: arms) => do some (.match_ (← toExpr scrut) (← arms.mapM toArm))
+  | _ => none
+partial def toArm : Sexp → Option Arm
+  | .list [.atom "arm", p, b] => do some (.mk (← toPat p) none (← toBlock b))
+  | .list [.atom "arm", p, g, b] => do some (.mk (← toPat p) (some (← toExpr g)) (← toBlock b))
   | _ => none
 partial def toStmt : Sexp → Option Stmt
   | .list [.atom "let", .atom x, e] => (toExpr e).map (.let_ x)
